@@ -188,6 +188,11 @@ func (w *WaterMark) tryAdvance() {
 			w.ensureWindow(next)
 			continue
 		}
+		if doneUntil >= win.base && win.slots[doneUntil-win.base].Load() > 0 {
+			// An index begun again while the mark already stood on it (a second
+			// reader with the same timestamp) holds the mark until it is done.
+			return
+		}
 		offset := next - win.base
 		if win.slots[offset].Load() > 0 {
 			return
@@ -234,7 +239,8 @@ func (w *WaterMark) ensureWindow(index uint64) *watermarkWindow {
 // rebuildWindowLocked resizes the window; caller must hold w.mu.
 func (w *WaterMark) rebuildWindowLocked(index uint64, win *watermarkWindow) {
 	done := w.DoneUntil()
-	newBase := done + 1
+	// Keep the slot of the mark itself: an index begun at the mark must still count.
+	newBase := max(done, 1)
 	if index < newBase {
 		index = newBase
 	}
